@@ -25,8 +25,8 @@ ASSUMPTIONS = [
     'no control requests are issued (quantifier of C18)',
 ]
 BUDGET = {
-    'quick': {'enum': ['pairs', 'nested', 'ctl', 'hookctl', 'wcfail', 'orphan'], 'hyp': 2000, 'shards': 8},
-    'thorough': {'enum': ['pairs', 'triples', 'nested', 'ctl', 'hookctl', 'wcfail', 'orphan'], 'hyp': 80000, 'shards': 16},
+    'quick': {'enum': ['pairs', 'nested', 'ctl', 'hookctl', 'wcfail', 'orphan', 'exotic'], 'hyp': 2000, 'shards': 8},
+    'thorough': {'enum': ['pairs', 'triples', 'nested', 'ctl', 'hookctl', 'wcfail', 'orphan', 'exotic'], 'hyp': 80000, 'shards': 16},
 }
 S = gen.S
 OWN_HOOKS = ('on_run', 'on_running', 'on_wait', 'on_waiting', 'on_exit_running', 'on_exit_waiting', 'on_output_emitted', 'on_entered', 'on_entering', 'on_exiting', 'on_finish', 'on_finished')
@@ -94,6 +94,24 @@ def enumerate_cases(tier, scope):
                     procs.append({'program': SHAPES[other], 'pid': 2})
                 yield {'procs': procs, 'start_gaps': [0, gap][: len(procs)], 'nested': False}
         return
+    if scope == 'exotic':
+        # process classes that compare by value (two different processes are equal) or are falsy (container-like and
+        # empty): the current process is a matter of identity
+        for flag in ({'value_eq': 3}, {'falsy': True}):
+            child_w = dict(CHILD_W, **flag)
+            awaiter = {'steps': [S([['yield'], ['await_child', child_w, 70], ['out', 'after', 1], ['yield']], ['continue', 1, [], {}], True), S([['soon', 'ok', 'ca']], ['value', 9])]}
+            awaiter.update(flag)
+            launcher = {'steps': [S([['launch', dict(CHILD, **flag), 50], ['yield'], ['yield']], ['value', 5], True)]}
+            launcher.update(flag)
+            for main in (awaiter, launcher, dict(SHAPES['y3'], **flag), dict(SHAPES['sync'], **flag), dict(SHAPES['gate'], **flag)):
+                for other in (None, 'y3', 'sync'):
+                    for gap in (0, 1, 2):
+                        procs = [{'program': main, 'pid': 1}]
+                        if other:
+                            procs.append({'program': dict(SHAPES[other], **flag), 'pid': 2})
+                        ctl = [[3, '1/70', 'pause'], [6, '1/70', 'play']] if main is awaiter and gap == 2 else []
+                        yield {'procs': procs, 'start_gaps': [0, gap][: len(procs)], 'nested': False, 'ctl': ctl}
+        return
     if scope == 'orphan':
         # a fire-and-forget child is finalised by the garbage collector while another process is in the middle of a step
         launcher = {'steps': [S([['orphan', 90]], ['value', 1])]}
@@ -136,6 +154,26 @@ def enumerate_cases(tier, scope):
                             if other:
                                 procs.append({'program': SHAPES[other], 'pid': 2})
                             yield {'procs': procs, 'start_gaps': [0, 1][: len(procs)], 'nested': False, 'hook_plans': {'1': [{'hook': hook, 'occ': occ, 'pos': 'post', 'do': do}]}}
+        # ... and a request made from the hooks of another request that is being carried out (a watchdog that kills what
+        # gets paused, a supervisor that plays it again)
+        for name in ('y3', 'sync', 'gate'):
+            for hook in ('on_running', 'on_waiting', 'on_exit_running', 'on_entered'):
+                for second_hook in ('on_paused', 'on_pausing'):
+                    for pos in ('pre', 'post'):
+                        for second in (['kill', 'pk'], ['play', None]):
+                            for other in (None, 'y3'):
+                                procs = [{'program': SHAPES[name], 'pid': 1}]
+                                if other:
+                                    procs.append({'program': SHAPES[other], 'pid': 2})
+                                plans = [{'hook': hook, 'occ': 1, 'pos': 'post', 'do': ['pause', 'hp']}, {'hook': second_hook, 'occ': 1, 'pos': pos, 'do': second}]
+                                yield {'procs': procs, 'start_gaps': [0, 1][: len(procs)], 'nested': False, 'hook_plans': {'1': plans}}
+        for second_hook in ('on_paused', 'on_pausing'):
+            for pos in ('pre', 'post'):
+                for other in (None, 'y3'):
+                    procs = [{'program': SELF_PAUSER, 'pid': 1}]
+                    if other:
+                        procs.append({'program': SHAPES[other], 'pid': 2})
+                    yield {'procs': procs, 'start_gaps': [0, 1][: len(procs)], 'nested': False, 'hook_plans': {'1': [{'hook': second_hook, 'occ': 1, 'pos': pos, 'do': ['kill', 'pk']}]}}
         return
     if scope in ('pairs', 'triples'):
         k = 2 if scope == 'pairs' else 3
@@ -430,6 +468,12 @@ def execute(case):
         loop.shutdown()
         asyncio.set_event_loop(None)
         world.reset(None)
+        if 'orphan' in str(case):
+            # hermeticity: what this case left to the garbage collector is finalised now, into a world nobody reads, and
+            # not in the middle of a later case
+            import gc
+
+            gc.collect()
     classes.add('mode:' + ('nested' if NESTED_MODE else 'plain'))
     return {'violations': viol, 'nontrivial': nontrivial, 'classes': sorted(classes), 'history': history}
 
